@@ -80,6 +80,7 @@ class Walker:
         self.raise_sites: list[tuple[str, str, frozenset]] = []
         self.unmodelled: list[str] = []
         self.root_params: set[str] = set()
+        self.visited: list[str] = []     # quals of every function walked
 
     # ------------------------------------------------------------------
     def run(self, fi: FuncInfo, param_facts=()) -> list[Exit]:
@@ -98,6 +99,8 @@ class Walker:
             self.unmodelled.append(f"inline bound at {fi.qual}")
             return st
         self.stack.append(fi.qual)
+        if fi.qual not in self.visited:
+            self.visited.append(fi.qual)
         try:
             ctx = Ctx(self, fi, argmap)
             out = ctx.block(fi.node.body, st)
